@@ -213,9 +213,12 @@ class Check:
         self.trusted = list(TRUSTED_BASE_COMMON)
         self.checker_cmd = "coqc (full .vo build of /verif/coq + generated case files under /verif/gen/%s)" % pid
         self.known = [k for k in load_known() if k["property"] == pid]
-        self.gen = os.path.join(GEN, pid)
+        # VERIF_SCRATCH=<name>: a self-test run (mutants) that must not touch the real evidence / replays
+        self.scratch = os.environ.get("VERIF_SCRATCH", "")
+        tag = pid + ("_" + self.scratch if self.scratch else "")
+        self.gen = os.path.join(GEN, tag)
         os.makedirs(self.gen, exist_ok=True)
-        self.replay_dir = os.path.join(VERIF, "replays", pid)
+        self.replay_dir = os.path.join(VERIF, "replays", tag)
         os.makedirs(self.replay_dir, exist_ok=True)
         for f in os.listdir(self.replay_dir):
             # replays belong to one run; stale ones would be misleading
@@ -316,8 +319,9 @@ class Check:
             "coverage": cov, "assumptions": self.assumptions, "wall_s": round(wall, 2),
             "violations": self.n_viol,
         }
-        os.makedirs(os.path.join(VERIF, "evidence"), exist_ok=True)
-        with open(os.path.join(VERIF, "evidence", self.pid + ".json"), "w") as f:
+        evdir = os.path.join(VERIF, "evidence") if not self.scratch else os.path.join(GEN, "evidence_" + self.scratch)
+        os.makedirs(evdir, exist_ok=True)
+        with open(os.path.join(evdir, self.pid + ".json"), "w") as f:
             json.dump(ev, f, indent=1, default=str)
         print("%s tier=%s seed=%d obligations=%d discharged=%d evaluations=%d violations=%d known=%d wall=%.1fs" % (
             self.pid, self.tier, self.seed, self.obligations, self.discharged, self.evaluations,
